@@ -67,14 +67,25 @@ def generate(seed, tier, index, kf):
     kws = ["K%02d%s" % (k, "x" * 56) for k in range(r.randint(24, 40))]
     ops = [{"s": s_, "op": "select", "mbox": "inbox", "examine": False} for s_ in ("sa", "sb")]
     ops.append({"s": "sb", "op": "store", "uid": False, "set": {"all": True}, "how": "+", "flags": kws, "silent": True})
-    ops.append({"s": "sa", "op": "idle", "when": {"delay": 0.0}})
-    victims = r.sample(range(1, n + 1), min(n, r.randint(2, 5)))
+    kind = r.choice(("idle", "idle", "expunge", "move"))
+    victims = r.sample(range(1, n + 1), min(n, r.randint(3, 6)))
+    own = victims.pop()
+    if kind == "idle":
+        ops.append({"s": "sa", "op": "idle", "when": {"delay": 0.0}})
+    else:
+        # the slow session's own EXPUNGE / MOVE: it flushes what is pending for it first, and goes on receiving while it does
+        if kind == "expunge":
+            ops.append({"s": "sa", "op": "store", "uid": True, "set": {"uids": [own]}, "how": "+", "flags": ["\\Deleted"], "silent": True, "when": {"delay": 0.0}})
+            ops.append({"s": "sa", "op": "expunge", "when": {"delay": 0.0}})
+        else:
+            ops.append({"s": "sa", "op": "move", "uid": True, "set": {"uids": [own]}, "dst": "inbox", "when": {"delay": 0.0}})
     t = 0.0
     for v in victims:
         t = r.choice((0.0, 0.05, 0.3, 0.8, 1.5))
         ops.append({"s": "sb", "op": "store", "uid": True, "set": {"uids": [v]}, "how": "+", "flags": ["\\Deleted"], "silent": True, "when": {"delay": t}})
         ops.append({"s": "sb", "op": "expunge", "when": {"delay": 0.0}})
-    ops.append({"s": "sa", "op": "done", "when": {"delay": r.choice((0.5, 2.0, 4.0))}})
+    if kind == "idle":
+        ops.append({"s": "sa", "op": "done", "when": {"delay": r.choice((0.5, 2.0, 4.0))}})
     ops.append({"s": "sa", "op": "noop", "when": {"delay": 0.1}})
     ops.append({"s": "sb", "op": "noop", "when": {"delay": 0.1}})
     for op in ops:
